@@ -51,6 +51,8 @@ type world struct {
 	byID map[string]*mdoc
 	seq  int
 	o    *obs
+	// lastRefused: the write just executed was expected to be refused by the one-to-one check
+	lastRefused bool
 }
 
 func (w *world) nodes() []*hx.Node {
@@ -133,15 +135,18 @@ func runCase(c Case) (*obs, *hx.Failure) {
 		}
 	}
 	for i, op := range c.Ops {
+		before := o.rejected11
 		if f := w.write(i, op); f != nil {
 			return o, f
 		}
-		if f := w.checkState(i); f != nil {
+		w.lastRefused = o.rejected11 > before
+		// membership from the two unfiltered shapes after every write; the id-filter shape
+		// at the midpoint and at the end. The twin is inspected at those two points and after
+		// every refused write (a refusal must leave nothing behind on either node).
+		full := i == len(c.Ops)/2 || i == len(c.Ops)-1
+		if f := w.checkState(i, full || w.lastRefused); f != nil {
 			return o, f
 		}
-		// membership from the two unfiltered shapes after every write; the id-filter shape
-		// at the midpoint and at the end
-		full := i == len(c.Ops)/2 || i == len(c.Ops)-1
 		if f := w.checkMembership(i, full); f != nil {
 			return o, f
 		}
@@ -627,8 +632,11 @@ func (w *world) nameOf(id string) string {
 
 // checkState compares every collection's live documents (own fields and foreign key) with the model
 // and asserts that no one-to-one target is held twice.
-func (w *world) checkState(step int) *hx.Failure {
+func (w *world) checkState(step int, twinToo bool) *hx.Failure {
 	for ni, n := range w.nodes() {
+		if ni == 1 && !twinToo {
+			continue
+		}
 		for col := 0; col < w.tp.NCols; col++ {
 			rel := w.tp.heldBy(col)
 			sel := "_docID name n"
